@@ -297,6 +297,31 @@ func runC20(seed int64, tier string, sc *Script) map[string]any {
 		}
 		rec.desc = mdesc
 	}
+	// Registry.Repository(name): the derived base reference is checked against the grammar too
+	{
+		sc.Case("registry-repository")
+		sc.NonTrivial()
+		reg, err := remote.NewRegistry("h:5")
+		if err != nil {
+			panic(err)
+		}
+		names := append([]string{"hello-world", "Hello-World", "a//b", "../_catalog", "hello-world:v0", "hello-world?n=1", "hello-world/manifests/latest?x=",
+			"hello-world#frag", "a/b/c", "a_b", "a__b", "a___b", "a-", "-a", "a.", "0", strings.Repeat("r", 300), "a b", "a@b", "a%2Fb"}, repos...)
+		enumStrings([]byte("aA_.-/:@#?"), 3, func(s string) { names = append(names, s) })
+		for _, nm := range names {
+			if strings.ContainsAny(nm, " \t\n") {
+				continue
+			}
+			r, err := reg.Repository(context.Background(), nm)
+			ans := "err"
+			if err == nil {
+				rr := r.(*remote.Repository)
+				ans = "ok:" + rr.Reference.Registry + "|" + rr.Reference.Repository
+			}
+			sc.Op(ans, "ref regrepo name=%s", nm)
+			evals++
+		}
+	}
 	// a repository whose registry has letters in both cases and dots
 	repo2, err := remote.NewRepository("Reg.Example.io/team/app")
 	if err != nil {
